@@ -6,8 +6,8 @@ RUN = "monitor"
 SHARD = 6
 TAGS = {1, 2, 3, 4, 5, 6, 8, 10, 12, 13, 15}
 RULE = ("lifecycle scenarios: close() by client/server/both/nobody at a random instant of handshake or transfer (incl. "
-        "window-limited senders), peer silenced after a random number of datagrams, close packets lost/duplicated, idle "
-        "timeout and keep-alive settings, late timers; non-trivial = at least one connection reached Drained")
+        "window-limited senders), peer silent from a random datagram on (one or both directions), close packets lost/duplicated, idle "
+        "timeout and keep-alive settings, server process restart (genuine stateless resets, also to a client that is already closing), idle timeout renegotiated on 0-RTT resumption (remembered vs actual peer value: none, larger, smaller), late timers; non-trivial = at least one connection reached Drained")
 
 
 def gen(rng, n):
@@ -15,15 +15,21 @@ def gen(rng, n):
     for i in range(n):
         d = S.base(rng, small=rng.chance(1, 2))
         S.knobs(rng, d)
+        # cost: the lifecycle does not need long lives; a shorter idle timeout and horizon keep the
+        # "nobody closes" / silent-peer scenarios (which run until the idle timeout) cheap
+        d["IDLE_MS"] = rng.choice([2000, 5000, 10000])
+        d["MAX_TIME"] = 25_000_000
         m = rng.below(6)
         d["CLOSER"] = rng.choice([0, 1, 2, 3])
         if m == 0:      # close at a random instant
             d["CLOSE_AT"] = rng.choice([1, 5000, 15000, 25000, 40000, 80000, 200000])
-        elif m == 1:    # peer disappears
-            d["SILENCE_AFTER"] = rng.range(0, 12)
-            d["SILENCE_SIDE"] = rng.below(2)
+        elif m == 1:    # peer disappears: every datagram from the k-th on is lost (one or both directions).
+            # (cheaper than SILENCE_AFTER and covers one-directional silence too)
+            k = rng.range(0, 14)
+            d["DROP_MASK"] = ((1 << 126) - 1) ^ ((1 << k) - 1)
+            d["DROP_MASK_DIR"] = rng.below(3)
             d["IDLE_MS"] = rng.choice([300, 1000, 3000])
-            d["MAX_TIME"] = 40_000_000
+            d["MAX_TIME"] = 15_000_000
         elif m == 2:    # window-limited sender closes mid-transfer
             d["STREAM_BYTES"] = rng.choice([200000, 1000000])
             d["WRITE_CHUNK"] = 100000
@@ -38,17 +44,57 @@ def gen(rng, n):
             if rng.chance(1, 2):
                 d["KEEPALIVE_MS"] = max(50, d["IDLE_MS"] // rng.choice([2, 3, 10]))
                 d["MAX_TIME"] = 8_000_000
-        if rng.chance(1, 2):
+        elif m == 4 and rng.chance(1, 2):
+            # idle timeout renegotiated on 0-RTT resumption: the client arms the Idle timer under the
+            # REMEMBERED peer parameters; the server's actual ones differ (none / larger / smaller)
+            d["ZERO_RTT"] = rng.choice([1, 2])
+            d["NCONNS"] = 1
+            d["IDLE_MS"] = rng.choice([300, 1000])
+            d["CLIENT_IDLE_MS"] = rng.choice([0, 0, 300, 5000])
+            d["SERVER_IDLE2_MS"] = rng.choice([0, 0, 2000, 10000, 200])
+            d["CLOSER"] = rng.choice([0, 0, 3])
+            d["DELAY_MIN"] = d["DELAY_MAX"] = rng.choice([10000, 30000])
+            d["STREAM_BYTES"] = rng.choice([20000, 100000, 300000])
+            d["ECHO_BYTES"] = rng.choice([0, 100000])
+            d["NBIDI"] = 1
+            if rng.chance(1, 2):
+                d["STREAM_RWND"] = rng.choice([3000, 10000])
+            d["MAX_TIME"] = 15_000_000
+        elif m == 5 and rng.chance(2, 3):
+            # the server process restarts mid-connection (fresh endpoint, same reset key): whatever the
+            # client still sends - also the CONNECTION_CLOSE it repeats, while closing, in answer to
+            # replayed old server datagrams - is answered with a genuine stateless reset
+            d["NCONNS"] = 1
+            d["DELAY_MIN"] = d["DELAY_MAX"] = rng.choice([10000, 30000])
+            t = 2 * d["DELAY_MIN"] * rng.range(4, 10)
+            d["STREAM_BYTES"] = rng.choice([100000, 300000])
+            d["NBIDI"] = 1
+            d["ECHO_BYTES"] = rng.choice([0, 100000])
+            d["CLOSER"] = rng.choice([0, 0, 3])
+            if d["CLOSER"] == 0:
+                d["CLOSE_AT"] = t
+            d["FORGET_AT"] = max(1000, t + rng.choice([-20000, 1000, 20000, 100000]))
+            d["REPLAY"] = rng.choice([0, 300, 600])
+            d["IDLE_MS"] = rng.choice([1000, 3000])
+            d["MAX_TIME"] = 15_000_000
+            d.pop("RETRY", None)
+        if d.get("STREAM_RWND") == 1:
+            d["STREAM_BYTES"] = min(d["STREAM_BYTES"], 700)     # one byte per round trip
+        if rng.chance(1, 2) and m != 1:
             S.lossy(rng, d)
         if rng.chance(1, 3):
             d["LATE_US"] = rng.choice([1, 500, 5000])
-        if rng.chance(1, 4) and d.get("CID_LEN", 8) != 0:
+        if rng.chance(1, 4) and d.get("CID_LEN", 8) != 0 and not d.get("ZERO_RTT"):
             d["NCONNS"] = rng.range(2, 3)   # zero-length CIDs: one connection per address tuple
         cases.append(S.case_of(d))
     return cases
 
 
 def project(case, outs):
+    # [[-999]] panic, [[-998]] run killed by the harness time limit, [[-997]] crash: keep the marker,
+    # the monitors reject it (a connection that does not terminate is a violation of C08 itself)
+    if len(outs) == 1 and outs[0] and outs[0][0] < 0:
+        return outs
     return S.project(outs, TAGS)
 
 
